@@ -129,6 +129,10 @@ func gen(p *simrt.Tape) any {
 	if p.Pct(8) {
 		pl.Script["accounts/ValidatingAccountsForEpoch/register"] = []Outcome{{}, {}, {Kind: "error"}}
 	}
+	// the node is not ready for the first domain requests (start-up), or fails one later
+	if p.Pct(20) {
+		pl.Script["chain/GenesisDomain"] = [][]Outcome{{{Kind: "error"}}, {{Kind: "error"}, {Kind: "error"}}, {{}, {}, {Kind: "error"}}}[p.Pick(3)]
+	}
 	if p.Pct(30) {
 		pl.FaultVal = p.Pick(len(ws.Vals))
 		pl.FaultFrom = time.Duration(p.Range(0, pl.Epochs-1)) * epoch
@@ -332,6 +336,13 @@ func oracle(pl *plan, w *relaysim.World, preps []*prepCall, stopT time.Duration,
 				}
 			}
 		}
+		// a failed domain request of the round leaves every validator without a signature
+		domainFailed := false
+		for _, c := range w.Script.CallsOf("chain", "GenesisDomain") {
+			if in(c.Step) && c.Outcome.Kind == "error" {
+				domainFailed = true
+			}
+		}
 		signerFailed := map[int]bool{}
 		var failedReqs []*SignReq
 		for _, q := range reqs {
@@ -479,6 +490,10 @@ func oracle(pl *plan, w *relaysim.World, preps []*prepCall, stopT time.Duration,
 				}
 				if prob == nil {
 					for _, n := range ref.RelayList() {
+						if !seen[n] && domainFailed {
+							out.Probes["relay-excused-domain-request-failed"]++
+							continue
+						}
 						if !seen[n] && signerFailed[v.KeyIndex] && excused(v, ref.Relays[n]) {
 							out.Probes["relay-excused-signature-failed"]++
 							continue
@@ -511,7 +526,7 @@ func oracle(pl *plan, w *relaysim.World, preps []*prepCall, stopT time.Duration,
 							prob = Viol("C11/secondary-wrong-content", "round %d: %s was given (fee %d, gas %d) for %s which is none of its relay settings", ri, e.party, relaysim.FeeIndex(e.reg.Fee), e.reg.Gas, v.Name)
 						}
 					}
-					if prob == nil && len(ref.Relays) > 0 && !signerFailed[v.KeyIndex] {
+					if prob == nil && len(ref.Relays) > 0 && !signerFailed[v.KeyIndex] && !domainFailed {
 						for _, n := range w.Secondary {
 							found := false
 							for _, e := range mine(secEvs) {
